@@ -27,6 +27,7 @@ type Clause struct {
 	Expr     ast.Expr
 	Props    []string
 	Line     string // file:line of the clause
+	anyCand  bool   // a `rejects` reason: if a local it names was renamed beyond recovery, it may hold of any well-sorted candidate
 }
 
 type LoopContract struct {
@@ -57,6 +58,8 @@ type Contract struct {
 	HasGlobals bool
 	mentioned map[string]bool
 	Defines   []*Clause // conservative definitions of otherwise uninterpreted predicates: assumed at entry of the function
+	Rejects   []*Clause // `rejects <cond>`: the only reasons for which the function itself may call a rejector (refuse its input)
+	Rejector  bool      // `rejector`: a call of this function refuses the input; a direct caller must state its reason (`rejects`)
 }
 
 // serves: does any clause of the contract carry the property tag (an engine error in such a function leaves the
@@ -394,6 +397,10 @@ func (e *Engine) parseContractFile(file, pkg string) error {
 			cur.Lets[strings.TrimSpace(rest[:i])] = ex
 		case "inline":
 			cur.Inline = true
+		case "rejector":
+			cur.Rejector = true
+		case "rejects":
+			addClause(&cur.Rejects, "rejects")
 		case "globals":
 			cur.HasGlobals = true
 			for _, g := range strings.Fields(rest) {
@@ -664,6 +671,7 @@ func (st *SpecTable) get(name string) *SpecSig {
 // evaluation
 
 type specCtx struct {
+	siteLocal bool // the clause is read at one call site (a `rejects` reason): no rename cache, no rename heuristics
 	fe      *FuncEnc
 	f       *Frame
 	cur     *State
@@ -679,7 +687,7 @@ type specCtx struct {
 }
 
 func (fe *FuncEnc) evalClause(f *Frame, c *Clause, cur, old *State, names map[string]TV, results []Term, pos token.Pos) (t Term) {
-	ctx := &specCtx{fe: fe, f: f, cur: cur, old: old, names: names, results: results, bound: map[string]TV{}, pos: pos, where: c.Line}
+	ctx := &specCtx{fe: fe, f: f, cur: cur, old: old, names: names, results: results, bound: map[string]TV{}, pos: pos, where: c.Line, siteLocal: c.anyCand}
 	if f != nil && f.fn != nil {
 		if con := fe.eng.contracts[fe.eng.fnames[f.fn]]; con != nil {
 			ctx.lets = con.Lets
@@ -981,6 +989,7 @@ func (c *specCtx) retryWithCandidates(cl *Clause, name string) (Term, bool) {
 	}
 	var okNames []string
 	var okTerm Term
+	var okTerms []Term
 	for cand := range cands {
 		c2 := *c
 		c2.retrying = true
@@ -1008,8 +1017,26 @@ func (c *specCtx) retryWithCandidates(cl *Clause, name string) (Term, bool) {
 			if t.T.Sort == SBool || t.T.Sort == SInt {
 				okNames = append(okNames, cand)
 				okTerm = t.T
+				okTerms = append(okTerms, t.T)
 			}
 		}()
+	}
+	if len(okNames) > 1 && cl.anyCand {
+		// a stated reason for refusing: "it holds of some local of the right kind" is still a reason, and never a false alarm
+		{
+			m := map[string]bool{}
+			for _, n := range okNames {
+				m[n] = true
+			}
+			okNames = sortStrings(m)
+		}
+		c.fe.assumes[fmt.Sprintf("contract name %q of %s (a `rejects` reason) could not be matched to one local; the reason is taken to hold of one of %v", name, c.fe.eng.fnames[c.f.fn], okNames)] = true
+		for _, t := range okTerms {
+			if t.Sort != SBool {
+				return Term{}, false
+			}
+		}
+		return tOr(okTerms...), true
 	}
 	if len(okNames) != 1 {
 		return Term{}, false
@@ -1071,6 +1098,11 @@ func (c *specCtx) renamed(name string) (TV, bool) {
 	}
 	if c.fe.renames == nil {
 		c.fe.renames = map[string]string{}
+	}
+	if c.siteLocal {
+		// a `rejects` reason is read at one call site: what a name means there says nothing about other places, so neither
+		// the cache nor the heuristics apply; the any-candidate fallback of evalClause decides
+		return TV{}, false
 	}
 	key := c.fe.eng.fnames[c.f.fn] + ":" + name
 	if to, ok := c.fe.renames[key]; ok {
@@ -1217,7 +1249,7 @@ func (c *Contract) mentionedNames() map[string]bool {
 			m[w] = true
 		}
 	}
-	for _, l := range [][]*Clause{c.Requires, c.Ensures, c.Decreases, c.Assumes, c.Defines} {
+	for _, l := range [][]*Clause{c.Requires, c.Ensures, c.Decreases, c.Assumes, c.Defines, c.Rejects} {
 		for _, cl := range l {
 			add(cl)
 		}
